@@ -116,12 +116,11 @@ Qed.
 (* ---------------------------------------------------------------- inversion of write *)
 Lemma write_inv : forall m kw f, Write m kw = Some f ->
   exists g hdr,
-    geometry t0 t1 m = Some g /\ map_data_ok m = true /\ header_of t0 prt3 prt6 m g kw = Some hdr
+    geometry t1 m = Some g /\ header_of t0 prt3 prt6 m g kw = Some hdr
     /\ f = {| f_header := hdr; f_rows := map (fun kp => srow m g kw (fst kp) (snd kp)) (kps g) |}.
 Proof.
   intros m kw f H. unfold write in H.
-  destruct (geometry t0 t1 m) as [g|] eqn:Eg; simpl in H; [|discriminate].
-  destruct (map_data_ok m) eqn:Eok; simpl in H; [|discriminate].
+  destruct (geometry t1 m) as [g|] eqn:Eg; simpl in H; [|discriminate].
   destruct (header_of t0 prt3 prt6 m g kw) as [hdr|] eqn:Eh; simpl in H; [|discriminate].
   match type of H with context [sequence ?l] => destruct (sequence l) as [rows|] eqn:Er end; simpl in H; [|discriminate].
   exists g, hdr. repeat split; auto.
@@ -136,7 +135,7 @@ Proof.
 Qed.
 
 (* ---------------------------------------------------------------- geometry *)
-Lemma geometry_dims : forall (m : cmapT) g, geometry t0 t1 m = Some g ->
+Lemma geometry_dims : forall (m : cmapT) g, geometry t1 m = Some g ->
   (0 < g_nrows g)%nat /\ (0 < g_ncols g)%nat /\ length (g_pts g) = (g_nrows g * g_ncols g)%nat.
 Proof.
   intros m g H. unfold geometry in H.
@@ -164,9 +163,7 @@ Proof.
           apply in_seq in Hp. fold R C in Hp. apply Nat.div_small. nia. }
         rewrite (nmax_zero rs 0 Hz eq_refl), (nmin_zero rs 0 Hz eq_refl). reflexivity. }
       rewrite HR. lia.
-    + destruct (Nat.ltb 1 R) eqn:ER; [|discriminate].
-      inversion H. simpl. repeat split; try (unfold nr; lia).
-      rewrite Hbox.
+    + (* C <= 1: all columns are 0 *)
       assert (HC : nc = 1%nat).
       { unfold nc. apply Nat.ltb_ge in EC.
         assert (Hz : forall x, In x cs -> x = O).
@@ -175,7 +172,29 @@ Proof.
           apply in_seq in Hp. fold R C in Hp.
           assert (C = 1%nat) by nia. rewrite H0. apply Nat.mod_1_r. }
         rewrite (nmax_zero cs 0 Hz eq_refl), (nmin_zero cs 0 Hz eq_refl). reflexivity. }
-      rewrite HC. lia.
+      destruct (Nat.ltb 1 R) eqn:ER.
+      * (* single column *)
+        inversion H. simpl. repeat split; try (unfold nr; lia).
+        rewrite Hbox. rewrite HC. lia.
+      * (* single point: R <= 1 as well *)
+        assert (HR : nr = 1%nat).
+        { unfold nr. apply Nat.ltb_ge in ER.
+          assert (Hz : forall x, In x rs -> x = O).
+          { intros x Hx. unfold rs in Hx. apply in_map_iff in Hx. destruct Hx as [p [<- Hp]].
+            rewrite <- Ep in Hp. unfold in_pts in Hp. apply filter_In in Hp. destruct Hp as [Hp _].
+            apply in_seq in Hp. fold R C in Hp. apply Nat.div_small. nia. }
+          rewrite (nmax_zero rs 0 Hz eq_refl), (nmin_zero rs 0 Hz eq_refl). reflexivity. }
+        inversion H. simpl. repeat split; try lia.
+        rewrite Hbox. rewrite HR, HC. reflexivity.
+Qed.
+
+(* the writer has a geometry for every map with at least one point in data *)
+Lemma geometry_defined : forall (m : cmapT), in_pts m <> [] -> exists g, geometry t1 m = Some g.
+Proof.
+  intros m H. unfold geometry. destruct (in_pts m) as [|p0 pts]; [congruence|].
+  destruct (Nat.ltb 1 (m_rows m) && Nat.ltb 1 (m_cols m))%bool; [eexists; reflexivity|].
+  destruct (Nat.ltb 1 (m_cols m)); [eexists; reflexivity|].
+  destruct (Nat.ltb 1 (m_rows m)); eexists; reflexivity.
 Qed.
 
 (* ---------------------------------------------------------------- header *)
@@ -202,22 +221,23 @@ Proof.
     split; [reflexivity|]. intros x [<- | Hx]; [exact Hpk | apply Hk; exact Hx].
 Qed.
 
-Lemma prefixed_nospace_no_fp :
-  forall s, nospace s = true ->
+Lemma prefixed_no_fp :
+  forall s, contains fp_orix s = false ->
     contains fp_orix ("MaterialName    " ++ s) = false
     /\ contains fp_orix ("Formula    " ++ s) = false
     /\ contains fp_orix ("Symmetry    " ++ s) = false.
 Proof.
-  intros s H. pose proof (contains_fp_nospace s H) as Hc. unfold fp_orix in *.
+  intros s Hc. unfold fp_orix in *.
   repeat split; cbn; exact Hc.
 Qed.
 
-Lemma block_no_fp : forall i (ph : @phase T), nospace (shown_name i ph) = true -> pg_known ph ->
+Lemma block_no_fp : forall i (ph : @phase T), contains fp_orix (shown_name i ph) = false -> pg_known ph ->
   forall l, In l (block_of prt3 i ph) -> has_fp l = false.
 Proof.
   intros i ph Hn Hk l Hl. unfold block_of in Hl. unfold has_fp.
-  destruct (prefixed_nospace_no_fp _ Hn) as [A [B _]].
-  destruct (shown_pg_ok ph Hk) as [_ [_ Hs]]. destruct (prefixed_nospace_no_fp _ Hs) as [_ [_ C]].
+  destruct (prefixed_no_fp _ Hn) as [A [B _]].
+  destruct (shown_pg_ok ph Hk) as [_ [_ Hs]].
+  destruct (prefixed_no_fp _ (contains_fp_nospace _ Hs)) as [_ [_ C]].
   simpl in Hl. destruct Hl as [<-|[<-|[<-|[<-|[<-|[<-|[<-|[]]]]]]]]; try reflexivity; simpl line_text; assumption.
 Qed.
 
@@ -232,11 +252,11 @@ Hypothesis Hnames : names_plain m.
 Let L := rev (numbered m).
 
 Lemma L_names : forall x, In x L -> shown_name (fst x) (snd (snd x)) = ph_name (snd (snd x))
-  /\ sempty (ph_name (snd (snd x))) = false /\ nospace (ph_name (snd (snd x))) = true.
+  /\ name_ok (ph_name (snd (snd x))).
 Proof.
   intros x Hx. unfold L in Hx. apply in_rev in Hx. unfold numbered in Hx.
-  destruct x as [i kv]. apply in_combine_r in Hx. destruct (Hnames kv Hx) as [A B].
-  unfold shown_name. simpl. rewrite A. auto.
+  destruct x as [i kv]. apply in_combine_r in Hx. pose proof (Hnames kv Hx) as Hok.
+  destruct Hok as [A B]. unfold shown_name. simpl. rewrite A. split; [reflexivity | split; assumption].
 Qed.
 
 Lemma header_shape : exists post1 post2,
@@ -279,7 +299,7 @@ Proof.
       rewrite find_app_none.
       2:{ intros l Hl. apply in_concat in Hl. destruct Hl as [b [Hb Hl]].
           apply in_map_iff in Hb. destruct Hb as [ip [<- Hip]].
-          destruct (L_names ip Hip) as [En [_ Hns]].
+          destruct (L_names ip Hip) as [En [_ [_ Hns]]].
           apply (block_no_fp (fst ip) (snd (snd ip))); [rewrite En; exact Hns | apply Hk; exact Hip | exact Hl]. }
       apply find_split; assumption. }
     rewrite F. reflexivity.
@@ -291,8 +311,9 @@ Proof.
   unfold parse_raw. rewrite E. rewrite fold_left_app. change (fold_left raw_step pre6 raw_empty) with raw_empty.
   rewrite fold_left_app. rewrite Hpost.
   rewrite (raw_blocks prt3).
-  2:{ intros x Hx. destruct (L_names x Hx) as [En [He Hns]]. unfold entry_ok. split.
-      - rewrite En. apply words_nospace; assumption.
+  2:{ intros x Hx. destruct (L_names x Hx) as [En Hok]. unfold entry_ok. rewrite En. split; [|split].
+      - destruct Hok as [_ [Hw _]]. exact Hw.
+      - apply name_ok_words. exact Hok.
       - apply (shown_pg_ok (snd (snd x))). apply Hk. exact Hx. }
   rewrite (phase_list_of_maps prt3).
   2:{ intros x Hx. apply (shown_pg_ok (snd (snd x))). apply Hk. exact Hx. }
@@ -301,6 +322,90 @@ Proof.
 Qed.
 
 End WithMap.
+
+(* ---------------------------------------------------------------- the writer is defined *)
+(* After the repairs of get_map_data and of _get_nrows_ncols_step_sizes the
+   writer refuses a map only for one of: no point in data, a point group that
+   is not one of the named groups, or a value that cannot be taken at a point
+   in data (missing property name, layer index on 1-D rotations or out of
+   range: caller errors).  In particular no map is refused for its size or
+   shape (maps of 1, 2, 3 points, 3 points in data, single column, single point). *)
+Definition sources (m : cmapT) (kw : kwargs) : list colsrc :=
+  [fst (fst (fst (std_sources m kw))); snd (fst (fst (std_sources m kw)));
+   snd (fst (std_sources m kw)); snd (std_sources m kw)] ++ extra_sources m kw.
+
+Definition point_ok (m : cmapT) (kw : kwargs) (p : nat) : Prop :=
+  euler_value rnd5 to_eu m kw p <> None
+  /\ forall s, In s (sources m kw) -> col_value rnd5 q32 m kw s p <> None.
+
+Lemma sequence_map_defined : forall {A B} (f : A -> option B) l,
+  (forall x, In x l -> f x <> None) -> exists l', sequence (map f l) = Some l'.
+Proof.
+  intros A B f. induction l as [|x r IH]; intro H; simpl.
+  - eexists; reflexivity.
+  - destruct (f x) as [b|] eqn:E; [|exfalso; apply (H x); [left; reflexivity | exact E]].
+    destruct IH as [r' Hr]; [intros y Hy; apply H; right; exact Hy|].
+    rewrite Hr. simpl. eexists; reflexivity.
+Qed.
+
+Lemma point_ok_outside : forall m kw p, nth p (m_in m) false = false -> point_ok m kw p.
+Proof.
+  intros m kw p H. split.
+  - unfold euler_value. rewrite H. discriminate.
+  - intros s _. unfold col_value. rewrite H. discriminate.
+Qed.
+
+Lemma row_of_defined : forall m g kw k p, point_ok m kw p ->
+  exists r, row_of coord rnd5 q32 to_eu m g kw k p = Some r.
+Proof.
+  intros m g kw k p [He Hs]. unfold row_of. unfold sources in Hs.
+  destruct (std_sources m kw) as [[[s0 s1] s2] s3]. cbn [fst snd] in Hs.
+  destruct (euler_value rnd5 to_eu m kw p) as [[[a b] c]|]; [|congruence]. cbn [obind].
+  destruct (col_value rnd5 q32 m kw s0 p) as [v0|] eqn:E0;
+    [|exfalso; apply (Hs s0); [simpl; auto | exact E0]]. cbn [obind].
+  destruct (col_value rnd5 q32 m kw s1 p) as [v1|] eqn:E1;
+    [|exfalso; apply (Hs s1); [simpl; auto | exact E1]]. cbn [obind].
+  destruct (col_value rnd5 q32 m kw s2 p) as [v2|] eqn:E2;
+    [|exfalso; apply (Hs s2); [simpl; auto | exact E2]]. cbn [obind].
+  destruct (col_value rnd5 q32 m kw s3 p) as [v3|] eqn:E3;
+    [|exfalso; apply (Hs s3); [simpl; auto | exact E3]]. cbn [obind].
+  destruct (sequence_map_defined (fun s => col_value rnd5 q32 m kw s p) (extra_sources m kw)) as [ex Hex].
+  { intros s Hin. apply Hs. apply in_or_app. right. exact Hin. }
+  rewrite Hex. cbn [obind]. eexists; reflexivity.
+Qed.
+
+Lemma phase_block_defined : forall i (ph : @phase T), pg_known ph ->
+  phase_block prt3 i ph = Some (block_of prt3 i ph).
+Proof.
+  intros i ph H. unfold phase_block, block_of, shown_name, shown_pg, pg_known in *.
+  destruct (ph_pg ph) as [gname|].
+  - destruct H as [pr E]. rewrite E. reflexivity.
+  - reflexivity.
+Qed.
+
+Theorem write_defined : forall m kw,
+  in_pts m <> [] ->
+  (forall kv, In kv (real_phases m) -> pg_known (snd kv)) ->
+  (forall p, nth p (m_in m) false = true -> point_ok m kw p) ->
+  exists f, Write m kw = Some f.
+Proof.
+  intros m kw Hin Hpg Hpt.
+  destruct (geometry_defined m Hin) as [g Hg].
+  unfold write. rewrite Hg. cbn [obind].
+  assert (Hh : exists hdr, header_of t0 prt3 prt6 m g kw = Some hdr).
+  { unfold header_of.
+    rewrite (sequence_map_some (fun ip : nat * (Z * @phase T) => phase_block prt3 (fst ip) (snd (snd ip)))
+                               (fun ip => block_of prt3 (fst ip) (snd (snd ip)))).
+    - cbn [obind]. eexists; reflexivity.
+    - intros ip Hip. apply phase_block_defined. apply Hpg.
+      apply in_rev in Hip. destruct ip as [i kv]. apply in_combine_r in Hip. exact Hip. }
+  destruct Hh as [hdr Hh]. rewrite Hh. cbn [obind].
+  destruct (sequence_map_defined (fun kp : nat * nat => row_of coord rnd5 q32 to_eu m g kw (fst kp) (snd kp))
+                                 (combine (seq 0 (length (g_pts g))) (g_pts g))) as [rows Hr].
+  { intros kp _. destruct (row_of_defined m g kw (fst kp) (snd kp)) as [r Hrow]; [|rewrite Hrow; discriminate].
+    destruct (nth (snd kp) (m_in m) false) eqn:E; [apply Hpt; exact E | apply point_ok_outside; exact E]. }
+  rewrite Hr. cbn [obind]. eexists; reflexivity.
+Qed.
 
 (* ---------------------------------------------------------------- expected map *)
 Definition live_col (m : cmapT) (kw : kwargs) (g : @geom T) (s : colsrc) (sent : Z) : list Z :=
@@ -329,8 +434,7 @@ Record clean (m : cmapT) (kw : kwargs) (g : @geom T) : Prop := {
   c_axis_x : (1 < g_ncols g)%nat -> axis_ok (coord (g_dx g)) (g_ncols g);
   c_axis_y : (1 < g_nrows g)%nat -> axis_ok (coord (g_dy g)) (g_nrows g);
   c_ci : forall p, In p (g_pts g) -> indexed_at m p = true ->
-         cv m kw (snd (fst (fst (std_sources m kw)))) p <> ci_not_indexed5;
-  c_rows : (1 < length (g_pts g))%nat }.
+         cv m kw (snd (fst (fst (std_sources m kw)))) p <> ci_not_indexed5 }.
 
 Lemma nth_srow_fixed : forall m g kw k p,
   let r := srow m g kw k p in
@@ -362,20 +466,20 @@ Proof.
 Qed.
 
 Theorem roundtrip : forall m kw f g,
-  Write m kw = Some f -> geometry t0 t1 m = Some g -> clean m kw g ->
+  Write m kw = Some f -> geometry t1 m = Some g -> clean m kw g ->
   read f = Some (expected m kw g).
 Proof.
   intros m kw f g Hw Hg Hc.
-  destruct (write_inv m kw f Hw) as [g' [hdr [Hg' [Hok [Hhdr Hf]]]]].
+  destruct (write_inv m kw f Hw) as [g' [hdr [Hg' [Hhdr Hf]]]].
   rewrite Hg in Hg'. inversion Hg'. subst g'. clear Hg'.
-  destruct Hc as [Hnames Hnd Hfresh Hax Hay Hci Hrows].
+  destruct Hc as [Hnames Hnd Hfresh Hax Hay Hci].
   destruct (geometry_dims m g Hg) as [Hnr [Hnc Hlen]].
   pose proof (header_vendor m g kw hdr Hhdr Hnames) as [Hv Hcols].
   pose proof (header_phases m g kw hdr Hhdr Hnames) as Hph.
   subst f. unfold read. cbn [f_header f_rows].
   rewrite Hph. cbn [obind].
   rewrite map_length. unfold kps at 1. rewrite combine_length, seq_length, Nat.min_id.
-  destruct (Nat.leb (length (g_pts g)) 1) eqn:El; [apply Nat.leb_le in El; lia|].
+  destruct (Nat.eqb (length (g_pts g)) 0) eqn:El; [apply Nat.eqb_eq in El; nia|].
   rewrite Hv, Hcols. cbn [obind].
   set (names := orix_cols ++ map normx (k_extra kw)).
   set (rows := map (fun kp => srow m g kw (fst kp) (snd kp)) (kps g)).
